@@ -399,11 +399,13 @@ type gcWorld struct {
 	pending []uint64
 	labels  map[string]bool
 	moves   int
+	// shared: additional components that reference the same referent (clones)
+	shared map[uint64]int
 }
 
 func newGCWorld(cap int, plainFirst bool, fill int) *gcWorld {
 	w := ecs.NewWorld(ecs.NewConfig().WithCapacityIncrement(cap))
-	g := &gcWorld{w: &w, book: newRefBook(), labels: map[string]bool{}}
+	g := &gcWorld{w: &w, book: newRefBook(), labels: map[string]bool{}, shared: map[uint64]int{}}
 	// filler types first: the pointer-holding components then get high ids (other mask words)
 	for i := 0; i < fill && i < ecs.MaskTotalBits-12; i++ {
 		ecs.TypeID(&w, core.FillerType(3000+i))
@@ -419,11 +421,21 @@ func newGCWorld(cap int, plainFirst bool, fill int) *gcWorld {
 	return g
 }
 
+// drop: one component that referenced tok is gone; the referent is released when it was the last one
+// (clones share referents).
+func (g *gcWorld) drop(tok uint64) {
+	if g.shared[tok] > 0 {
+		g.shared[tok]--
+		return
+	}
+	g.book.release(tok)
+	g.pending = append(g.pending, tok)
+}
+
 func (g *gcWorld) releaseAll(e *gcEnt) {
 	for _, tok := range append(append([]uint64{e.ptr, e.rel, e.str, e.ostr, e.oif, e.ofn}, e.sli...), e.mp...) {
 		if tok != 0 {
-			g.book.release(tok)
-			g.pending = append(g.pending, tok)
+			g.drop(tok)
 		}
 	}
 	e.ptr, e.rel, e.str, e.sli, e.mp = 0, 0, 0, nil, nil
@@ -630,6 +642,76 @@ func (g *gcWorld) apply(op gcOp) string {
 			}
 		}
 		g.ents = append(g.ents, e)
+	case "clone":
+		// the clone idiom: every component of a new entity is supplied BY a pointer into the world's
+		// own storage (the Get pointer of the template entity), so the call reads its arguments from
+		// the tables it is changing - also when the receiving table grows in this very call
+		src := g.pick(op.E, func(e *gcEnt) bool { return e.ptr != 0 })
+		if src == nil {
+			break
+		}
+		e := &gcEnt{alive: true, target: -1}
+		comps := []ecs.Component{}
+		add := func(id ecs.ID, tok uint64) uint64 {
+			if tok != 0 {
+				g.shared[tok]++
+			}
+			var c any = w.Get(src.h, id)
+			if op.V&1 != 0 {
+				// as a typed pointer, where the type is at hand
+				switch id {
+				case g.ids.ptr:
+					c = (*PPtr)(w.Get(src.h, id))
+				case g.ids.sli:
+					c = (*PSli)(w.Get(src.h, id))
+				case g.ids.str:
+					c = (*PStr)(w.Get(src.h, id))
+				}
+			}
+			comps = append(comps, ecs.Component{ID: id, Comp: c})
+			return tok
+		}
+		e.ptr = add(g.ids.ptr, src.ptr)
+		if len(src.sli) > 0 {
+			e.sli = []uint64{add(g.ids.sli, src.sli[0])}
+		}
+		if len(src.mp) > 0 {
+			e.mp = []uint64{add(g.ids.mp, src.mp[0])}
+		}
+		if src.str != 0 {
+			e.str = add(g.ids.str, src.str)
+		}
+		if src.ostr != 0 {
+			e.ostr = add(g.ids.ostr, src.ostr)
+		}
+		if src.oif != 0 {
+			e.oif = add(g.ids.oif, src.oif)
+		}
+		if src.ofn != 0 {
+			e.ofn = add(g.ids.ofn, src.ofn)
+		}
+		if src.hasRel {
+			e.rel, e.hasRel = add(g.ids.rel, src.rel), true
+		}
+		if src.plain {
+			e.plain = true
+			add(g.ids.plain, 0)
+		}
+		if src.tag {
+			e.tag = true
+			add(g.ids.tag, 0)
+		}
+		switch op.N % 3 {
+		case 0:
+			e.h = w.NewEntityWith(comps...)
+		case 1:
+			e.h = ecs.NewBuilderWith(w, comps...).New()
+		default:
+			e.h = w.NewEntity()
+			w.Assign(e.h, comps...)
+		}
+		g.ents = append(g.ents, e)
+		g.labels["clone through Get pointers"] = true
 	case "rm":
 		if e := g.pick(op.E, anyEnt); e != nil {
 			// the bookkeeping is released BEFORE the call that drops the reference: a collection may
@@ -705,8 +787,7 @@ func (g *gcWorld) apply(op gcOp) string {
 	case "batchrempointer": // a pointer-holding component is removed from all its carriers in one batch call
 		for _, e := range g.ents {
 			if e.alive && len(e.mp) > 0 {
-				g.book.release(e.mp[0])
-				g.pending = append(g.pending, e.mp[0])
+				g.drop(e.mp[0])
 				e.mp = nil
 				g.moves++
 				g.labels["pointer component removed by a batch call"] = true
@@ -725,16 +806,14 @@ func (g *gcWorld) apply(op gcOp) string {
 		if e := g.pick(op.E, func(e *gcEnt) bool { return e.ptr != 0 }); e != nil {
 			p, tok := g.book.newPayload()
 			old := e.ptr
-			g.book.release(old)
-			g.pending = append(g.pending, old)
+			g.drop(old)
 			w.Set(e.h, g.ids.ptr, &PPtr{P: p})
 			e.ptr = tok
 			g.labels["component overwritten"] = true
 		}
 	case "rempointer":
 		if e := g.pick(op.E, func(e *gcEnt) bool { return len(e.mp) > 0 }); e != nil {
-			g.book.release(e.mp[0])
-			g.pending = append(g.pending, e.mp[0])
+			g.drop(e.mp[0])
 			e.mp = nil
 			w.Remove(e.h, g.ids.mp)
 			g.moves++
@@ -811,7 +890,7 @@ func runGCCase(c *gcCase) (msg string, labels map[string]bool, moves int) {
 
 func TestC14(t *testing.T) {
 	withStats(t, "C14", func(st *core.Stats) {
-		st.Rule = "(t) 13 call-site templates (World.Set/Assign/NewEntityWith, Builder.New/NewBatchQ/Add, generic Map.Set/Map1.NewWith/Assign, slice, string, write through the Get pointer) whose component literal and referent are locals of a non-inlined function: after it returns the stack is overwritten (generated depth), a GC forced, the entity moved to another table and the referent read back - all templates are walked in every run; (a) generated histories of creations (three supply paths), removals, RemoveEntities, Add/Remove of other components (moves between tables), batch moves (Batch.Add/Remove/Exchange, also removing a pointer-holding component from all its carriers at once), both registration orders of pointer-free and pointer-holding components, component ids in every mask word (0-240 filler types registered first), relation retargeting, overwriting and Reset on entities whose components hold *T, []T, map, string(+pointer), string only, interface only, func (closure) only, and a relation component with a pointer, referents allocated before and reachable only through the component, with capacity increment 1-2 (growth every few entities) while 0-4 goroutines force collections continuously; after every op every referent is read through its component (token and padding intact) and no referent may have been finalized while its component exists; (b) after removal of the component/entity, overwriting or Reset, a deterministic flush (GC, sentinel finalizer, GC, three rounds) must have run the finalizer of every released referent; non-trivial = a history with >= 3 moves of pointer-holding entities between tables and concurrent collections; the GC schedule is not controlled (stress exploration)"
+		st.Rule = "(t) 13 call-site templates (World.Set/Assign/NewEntityWith, Builder.New/NewBatchQ/Add, generic Map.Set/Map1.NewWith/Assign, slice, string, write through the Get pointer) whose component literal and referent are locals of a non-inlined function: after it returns the stack is overwritten (generated depth), a GC forced, the entity moved to another table and the referent read back - all templates are walked in every run; (a) generated histories of creations (three supply paths; also clones whose every component is supplied by the Get pointer of a template entity, i.e. read from the very tables the call changes and possibly grows), removals, RemoveEntities, Add/Remove of other components (moves between tables), batch moves (Batch.Add/Remove/Exchange, also removing a pointer-holding component from all its carriers at once), both registration orders of pointer-free and pointer-holding components, component ids in every mask word (0-240 filler types registered first), relation retargeting, overwriting and Reset on entities whose components hold *T, []T, map, string(+pointer), string only, interface only, func (closure) only, and a relation component with a pointer, referents allocated before and reachable only through the component, with capacity increment 1-2 (growth every few entities) while 0-4 goroutines force collections continuously; after every op every referent is read through its component (token and padding intact) and no referent may have been finalized while its component exists; (b) after removal of the component/entity, overwriting or Reset, a deterministic flush (GC, sentinel finalizer, GC, three rounds) must have run the finalizer of every released referent; non-trivial = a history with >= 3 moves of pointer-holding entities between tables and concurrent collections; the GC schedule is not controlled (stress exploration)"
 		if path, ok := replaying(); ok {
 			var c gcCase
 			if err := core.ReadReplay(path, &c); err != nil {
@@ -855,7 +934,7 @@ func TestC14(t *testing.T) {
 				c.Cap = rapid.SampledFrom([]int{1, 1, 2, 4, 128}).Draw(rt, "cap")
 				c.GCers = rapid.SampledFrom([]int{0, 1, 2, 4, 4}).Draw(rt, "gcers")
 				n := rapid.IntRange(5, 60).Draw(rt, "nops")
-				kinds := []string{"new", "new", "new", "rm", "rmall", "addplain", "addplain", "remplain", "tag", "tag", "batchtag", "batchuntag", "batchexch", "batchrempointer", "settarget", "settarget", "overwrite", "rempointer", "reset", "flush"}
+				kinds := []string{"new", "new", "new", "clone", "clone", "rm", "rmall", "addplain", "addplain", "remplain", "tag", "tag", "batchtag", "batchuntag", "batchexch", "batchrempointer", "settarget", "settarget", "overwrite", "rempointer", "reset", "flush"}
 				c.PlainFirst = rapid.Bool().Draw(rt, "plainfirst")
 				c.Fill = rapid.SampledFrom([]int{0, 0, 0, 58, 64, 120, 128, 190, 240}).Draw(rt, "fill")
 				for i := 0; i < n; i++ {
